@@ -454,7 +454,8 @@ end steps
 
 /-! ### the invariant holds in every reachable state -/
 
-theorem inv_step {sh : Shape} (h1 : sh.clearOnAccept = true) (h2 : sh.checkCurrent = true) (cfg : Cfg)
+theorem inv_step {sh : Shape} (h1 : sh.clearOnAccept = true) (h2 : sh.checkCurrent = true) (h3 : sh.regInHandler = false)
+    (cfg : Cfg)
     (s : St) (l : Label) (s' : St) (h : Inv cfg s) (hst : step sh cfg s l = some s') : Inv cfg s' := by
   cases l with
   | tick d => simp only [step, Option.some.injEq] at hst; subst hst; exact inv_tick h d
@@ -467,21 +468,24 @@ theorem inv_step {sh : Shape} (h1 : sh.clearOnAccept = true) (h2 : sh.checkCurre
       next => cases hst
     next => cases hst
   | register =>
-    simp only [step] at hst
+    simp only [step, h3] at hst
     split at hst
-    next c hl => cases hst; exact inv_register h1 h c hl
+    next c hl => simp only [Bool.false_eq_true, if_false] at hst; cases hst; exact inv_register h1 h c hl
     next => cases hst
+  | hregister c =>
+    simp [step, h3] at hst
   | addActive =>
-    simp only [step] at hst
+    simp only [step, h3] at hst
     split at hst
     next c hl =>
       cases hst
       exact inv_lpc h _ (by simp [hl, lHolds]) rfl (by intro c' hc'; simp at hc'; subst hc'; exact Or.inl hl) (by intro c'; simp)
+    next => simp at hst
     next => cases hst
   | spawn =>
-    simp only [step] at hst
+    simp only [step, h3] at hst
     split at hst
-    next c hl => cases hst; exact inv_spawn h c hl
+    next c hl => simp only [Bool.false_eq_true, if_false] at hst; cases hst; exact inv_spawn h c hl
     next => cases hst
   | acceptTimeout =>
     simp only [step] at hst
@@ -587,9 +591,10 @@ theorem inv_step {sh : Shape} (h1 : sh.clearOnAccept = true) (h2 : sh.checkCurre
     · cases hst; exact h
     · cases hst
 
-theorem inv_reachable {sh : Shape} (h1 : sh.clearOnAccept = true) (h2 : sh.checkCurrent = true) (cfg : Cfg) :
+theorem inv_reachable {sh : Shape} (h1 : sh.clearOnAccept = true) (h2 : sh.checkCurrent = true)
+    (h3 : sh.regInHandler = false) (cfg : Cfg) :
     ∀ s, (ts sh cfg).Reachable s → Inv cfg s :=
-  TS.invariant_of_step (ts sh cfg) (Inv cfg) (inv_init cfg) (fun s l s' hi hst => inv_step h1 h2 cfg s l s' hi hst)
+  TS.invariant_of_step (ts sh cfg) (Inv cfg) (inv_init cfg) (fun s l s' hi hst => inv_step h1 h2 h3 cfg s l s' hi hst)
 
 end Loop
 end VgiVerif.C33
